@@ -1,13 +1,6 @@
-"""Per-property configuration of /verif/check (see DESIGN.md section 5)."""
+from .common import LEAN_TB, TRANSLATOR_TB
 
-LEAN_TB = [
-    "Lean 4.33.0 kernel (axioms allowed: propext, Classical.choice, Quot.sound; no sorry/native_decide/bv_decide/own axioms)",
-    "tools/go2lean (Go->Lean translator for first-order integer code) and Sonic/Go/Prelude.lean (int64 wrap, checked slices)",
-    "correspondence check: harness (real code, in process) vs sonicdrv (model acceptor + property monitor)",
-]
-
-PROPS = {
-    "C10": {
+PROP = {
         "id": "C10",
         "lean_targets": ["Sonic.Props.C10"],
         "theorems": [
@@ -25,10 +18,20 @@ PROPS = {
                 "arguments (0, size, size+k, 2^31, 2^62, MaxInt) or every sequence over {0,1,size/2,size} (exhaustive); a script is "
                 "non-trivial when the model reached a non-default branch (wrapped region, promotion, clamped claim/commit, "
                 "partial commit, over-consume, claim placed before the head); distinct = by SHA-1 of the implementation trace",
-        "trusted_base": LEAN_TB + ["bip_buffer.go is translated (all methods), not hand-modelled; the byte array itself is modelled as cell positions"],
+        "trusted_base": LEAN_TB + [TRANSLATOR_TB, "bip_buffer.go is translated (all methods), not hand-modelled; the byte array itself is modelled as cell positions"],
         "assumptions": [
             "arguments are non-negative Go ints (the property's quantifier); size <= MaxInt64",
             "slice offsets are observed through unsafe pointer arithmetic relative to the buffer's backing array",
         ],
+        "manifest": {
+        "level_text": "Theorems over the definitions regenerated from bip_buffer.go: for every size and every sequence of "
+                      "Claim/Commit/Head/Consume/Committed/Reset with non-negative arguments the implementation's answers are accepted by an "
+                      "abstract byte-queue monitor (claims disjoint from queued cells, empty buffer grants min(n,size), commits append the "
+                      "claimed prefix as one chunk, Head is the maximal contiguous run, Consume frees the oldest cells, Committed is the queue "
+                      "length). Unbounded induction over the operation list; int64 wrap-around modelled.",
+        "design_ref": "5/C10",
+        "level_note": "Trusted: Lean kernel; go2lean translator + Go prelude (both exercised on every run by the differential trace check "
+                      "against the real BipBuffer); memory modelled as cell positions.",
+        "technique": "Lean 4 refinement proof over translated code + differential trace correspondence",
     },
 }
